@@ -851,6 +851,12 @@ func ruleERR4(w *World) []Ob {
 					}
 				case *ssa.Send:
 					returnedSame = true // handed to the stage's error channel (pipeline worker)
+				case *ssa.Select:
+					for _, st := range x.States {
+						if st.Send == ssa.Value(c) {
+							returnedSame = true
+						}
+					}
 				case ssa.CallInstruction:
 					// passed to sendErr-like module helper
 					for _, f := range p.ModCallees(x) {
